@@ -484,6 +484,12 @@ def r6_condense_add(ctx):
         # every other return of the method is a type / shortcut test that returns False before the comparison
         good = len(parts) == 2 and pairs == {(A_, B_), (B_, A_)}
     ctx.check(good, f, f.node, "profiles are equal iff their condensed ballots contain each other", "", "PreferenceProfile.__eq__ is not mutual containment of condensed ballots")
+    pmq = astx.parents(f.node)
+    Nq = Normalizer(f.node, inline=False)
+    rets = [r for r in astx.walk_own(f.node) if isinstance(r, ast.Return)]
+    tguard = any(astx.is_const(r.value, False) and literals(Nq.conj(astx.path_condition(f.node, r, pmq, carried=False))) == {f"not truthy(isinstance({other}, PreferenceProfile))"} for r in rets)
+    ctx.check_shape(tguard, f, f.node, "a profile is unequal to anything that is not a profile (and only that is decided by the type test)", "",
+                    "the type test of PreferenceProfile.__eq__ no longer returns False for exactly the non-profiles")
 
 
 def r7_dict_views(ctx):
@@ -543,6 +549,8 @@ BL = "src/votekit/ballot.py"
 PP = "src/votekit/pref_profile.py"
 UT = "src/votekit/utils.py"
 FAULTS = [
+    ("Ballot.__eq__ decides weight the wrong way round", [("src/votekit/ballot.py", "        if self.weight != other.weight:\n            return False", "        if self.weight == other.weight:\n            return False")], "C11.R5"),
+    ("condense cursor never advances", [(PP, "                new_ballot_list[i] = Ballot(ranking=ballot.ranking, weight=weight)\n\n            i += 1\n", "                new_ballot_list[i] = Ballot(ranking=ballot.ranking, weight=weight)\n")], "C11.R6"),
     ("hash over scores in insertion order (seeded C11-r2-3)", [(BL, "        return hash(self.ranking)\n", "        return hash((self.ranking, tuple(self.scores.items()) if self.scores else None))\n")], "C11.R5"),
     ("ballot not frozen", [(BL, "@dataclass(frozen=True, config=ConfigDict(arbitrary_types_allowed=True))", "@dataclass(config=ConfigDict(arbitrary_types_allowed=True))")], "C11.R1"),
     ("setattr on a ballot in utils", [(UT, "    if isinstance(removed, str):\n        removed = [removed]\n", "    if isinstance(removed, str):\n        removed = [removed]\n    if isinstance(profile_or_ballots, Ballot):\n        object.__setattr__(profile_or_ballots, \"id\", None)\n")], "C11.R1"),
